@@ -17,7 +17,7 @@ RULE = ("cases from rng(seed, 12, 0, i): graphs of all pose types (trajectory an
         "(all vertices fixed / exactly consistent measurements / linear graph at its optimum); tol in {0, 1e-12..1e-1}, max_iter 1..30 (quick: ..12), verbose in {True, False}; "
         "one call vs single-iteration driving; random (all for n<=5) compositions k1+..+km=n. distinct = fingerprint(spec, tol, max_iter); non-trivial = run with >= 2 iterations.")
 REQ = ["eval:stopping-rule", "eval:report-chi2-sequence", "eval:final-state-is-trajectory-state", "eval:final-chi2-is-calc_chi2", "eval:verbose-does-not-alter", "eval:split-run-reproduces",
-       "eval:printed-table-matches-report", "eval:str(result)-matches-report", "class:early_stop", "class:max_iter_stop", "class:stationary", "class:diverging", "class:tol=0", "class:converged_at_max_iter", "class:singular", "class:nan_chi2_in_trace", "class:edge_overriding_calc_chi2", "eval:next-call-after-external-edit-equals-fresh-graph"]
+       "eval:printed-table-matches-report", "eval:str(result)-matches-report", "class:early_stop", "class:max_iter_stop", "class:stationary", "class:diverging", "class:tol=0", "class:converged_at_max_iter", "class:singular", "class:nan_chi2_in_trace", "class:edge_overriding_calc_chi2", "eval:next-call-after-external-edit-equals-fresh-graph", "class:indefinite_information(negative chi2 possible)"]
 PLAN = {
     "quick": {"cases": 1200, "soft_s": 80, "min_nontrivial": 300, "require": REQ},
     "thorough": {"cases": 48000, "soft_s": 1400, "min_nontrivial": 10000, "require": REQ},
@@ -63,6 +63,16 @@ def make_graph(rng, ctx):
     k = str(rng.choice(R.KINDS))
     if kind == "traj":
         spec = gen.trajectory_graph(rng, k, int(rng.integers(3, 10)), n_loops=int(rng.integers(0, 3)), n_lm=int(rng.integers(0, 3)), meas_t=0.05, meas_r=0.02, init_t=0.2, init_r=0.1)
+        if rng.random() < 0.2:
+            # a negatively weighted duplicate of one odometry edge with a far-off measurement (an "anti-constraint"; information that is not positive
+            # semi-definite): the summed Hessian stays positive definite, but chi2 can be negative - the documented rule is arithmetic on whatever chi2 is
+            odo = [e for e in spec["edges"] if e["type"] == "odo"]
+            e0 = gen.copy_spec(odo[int(rng.integers(len(odo)))])
+            e0["info"] = (-float(rng.uniform(0.2, 0.6)) * np.array(e0["info"])).tolist()
+            nt = {"r2": 2, "r3": 3, "se2": 2, "se3": 3}[e0["est_kind"]]
+            e0["est"] = [x + float(rng.uniform(2, 6)) for x in e0["est"][:nt]] + list(e0["est"][nt:])
+            spec["edges"].append(e0)
+            ctx.count("class:indefinite_information(negative chi2 possible)")
     elif kind == "cluster":
         spec, _ = gen.cluster_graph(rng, size=(2, 5))
         if rng.random() < 0.5:
@@ -260,6 +270,10 @@ def report_check(ctx, rng, spec, gkind, tol, max_iter, ffp):
                 ctx.count("external_edit_history_raised:" + type(ex).__name__)
     # split runs (tol=0 so that no call stops early) reproduce x_n
     n = max_iter
+    if any(x < 0 for x in chi if x == x):
+        # with a negative chi2 the documented rule can stop even at tol = 0 (the relative decrease changes sign): "no call stops early" does not hold
+        ctx.count("split_runs_not_compared:negative_chi2_in_trace")
+        return stop, conv, chi, verbose
     for parts in compositions(rng, n, ctx.tier):
         g4 = M.build(spec)
         try:
